@@ -130,6 +130,7 @@ class ClassRef(object):
     def __init__(self, interp, cls):
         self.interp, self.cls = interp, cls
         self.attr_cache = {}
+        self.dyn = {}            # attributes installed on the class at run time
 
     def __call__(self, *args, **kwargs):
         return self.interp.instantiate(self.cls, args, kwargs)
@@ -341,7 +342,13 @@ class Interp(object):
     # ------------------------------------------------------------------ plumbing
     def ns(self, module):
         if module.name not in self._ns:
-            self._ns[module.name] = ModuleNS(self, module)
+            ns = self._ns[module.name] = ModuleNS(self, module)
+            if module.toplevel:
+                # statements with effects at import time, in source order; names they bind are module globals
+                fr = Frame(module)
+                fr.env = ns.values
+                for st in module.toplevel:
+                    self.run_stmt_sync(st, fr)
         return self._ns[module.name]
 
     def classref(self, cls):
@@ -504,6 +511,22 @@ class Interp(object):
 
     def get_class_member(self, cls, attr, via_instance, raw=False, after=None):
         """Python attribute lookup on the class (via_instance: the Obj, or None for class access)."""
+        # attributes installed at run time (setattr(cls, name, value), cls.name = value): found on the first class of the
+        # MRO that has one, before the class body definitions of that class and of the classes behind it
+        mro = cls.mro()
+        if after is not None:
+            mro = mro[mro.index(after) + 1:]
+        for c in mro:
+            dyn = self.classref(c).dyn
+            if attr in dyn:
+                v = dyn[attr]
+                if isinstance(v, Closure) and via_instance is not None and not raw:
+                    return True, BoundMethod(v, via_instance)
+                if isinstance(v, property) and via_instance is not None:
+                    return True, v.fget(via_instance)
+                return True, v
+            if attr in c.own_members():
+                break
         r = cls.lookup(attr, after=after)
         if r is None:
             return False, None
@@ -633,6 +656,9 @@ class Interp(object):
             raise InterpRaise("'%s' object has no attribute '%s'" % (type(obj).__name__, attr), 'AttributeError')
 
     def setattr(self, obj, attr, value):
+        if isinstance(obj, ClassRef):
+            obj.dyn[attr] = value
+            return
         if isinstance(obj, Obj):
             if any((c.dataclass_options() or {}).get('frozen') for c in obj.cls.mro()):
                 raise InterpRaise("cannot assign to field '%s'" % attr, 'AttributeError')
@@ -693,7 +719,8 @@ class Interp(object):
     on_getattr = None        # instance attribute reads (not methods / properties)
 
     def has_dunder(self, obj, name):
-        return isinstance(obj, Obj) and obj.cls.lookup(name) is not None
+        return isinstance(obj, Obj) and (obj.cls.lookup(name) is not None or
+                                         any(name in self.classref(c).dyn for c in obj.cls.mro()))
 
     def call_dunder(self, obj, name, *args, **kwargs):
         return self.getattr(obj, name)(*args, **kwargs)
